@@ -1,7 +1,8 @@
-(* Extraction for C13: the cone / margin of a pipeline ([kpipe_rad], the radii of the theorem
-   C13_pipeline_local_partial extended to every local step kind, see C13_radii_agree), used by the
-   metamorphic runs of harness/props/c13.py to decide which pixels of a crop must be bit-identical to
-   the whole-image run.  Directives: ExtrOcamlBasic only. *)
+(* Extraction for C13: the cone / margin of a pipeline ([kpipe_rad]: the radii of the theorem
+   C13_pipeline_local, which are computed on the step kinds, see C13_radii_agree; cbca with its PROVED
+   radius max(cbca_distance - 1, 1), + 1 for the 3x3 median pre-filter), used by the metamorphic runs of
+   harness/props/c13.py to decide which pixels of a crop must be bit-identical to the whole-image run.
+   Directives: ExtrOcamlBasic only. *)
 Require Extraction.
 Require Import ExtrOcamlBasic.
 From Coq Require Import ZArith List.
